@@ -201,7 +201,11 @@ def run_case(case, want_trace=False):
                 if len(cands) > 1:
                     vio.append(V("C02/duplicate-token", "requests %r outstanding to %s with the same token %s" % (cands, d["src"], f["token"].hex())))
                 done_now = [k for k in newly if k in cands]
-                if len(done_now) != 1:
+                if d["src"] in refused_to and not done_now:
+                    # the ACK released a queued CON whose transmission the kernel refused: the transport error for this remote
+                    # reaches the request before its response is looked at -- a library error is an allowed outcome
+                    labels.add("response-overtaken-by-send-error")
+                elif len(done_now) != 1:
                     vio.append(V("C02/matching-response-not-delivered", "response %s for request(s) %r: completed now %r" % (R.describe(f), cands, sorted(newly))))
                 else:
                     k = done_now[0]
@@ -255,6 +259,25 @@ def run_case(case, want_trace=False):
                     vio.append(V("C02/result-without-matching-delivery", "request %d -> %r" % (k, val)))
             if it["done_calls"] > 1:
                 vio.append(V("C02/completed-twice", "request %d" % k))
+        # a request datagram that the kernel refused to send: the error is reported for that remote, so the request fails then
+        # and there (it must not hang until somebody shuts the context down)
+        for w in net.wire:
+            if not w.get("refused") or w["src"] != CLIENT:
+                continue
+            try:
+                f = R.decode(w["data"])
+            except R.FormatError:
+                continue
+            p_ = R.opts(f, R.O_URI_PATH)
+            if not (1 <= f["code"] < 32 and p_ and p_[0].startswith("r")):
+                continue
+            k = int(p_[0][1:])
+            it = items.get(k)
+            if it is None:
+                continue
+            kind, val = ReqLog.outcome(it)
+            if it["t_done"] is None or it["t_done"] > w["t"] + 1e-6:
+                vio.append(V("C02/request-hangs-after-refused-transmission", "request %d: sendmsg refused at %.4f, future %s at %s (%r)" % (k, w["t"], kind, it["t_done"], val)))
         # tokens of simultaneously outstanding requests to one endpoint differ
         ks = sorted(tokens)
         for i, a in enumerate(ks):
@@ -332,6 +355,9 @@ def _case(draw):
     )
     errors = draw(st.lists(st.fixed_dictionaries({"t": st.sampled_from([0.0005, 0.01, 0.5, 1.5, 4.0]), "server": st.integers(0, 2)}), max_size=2))
     fates = draw(st.lists(st.one_of(fate_strategy(delays=[0.001, 0.05, 0.15, 1.0, 2.5, 10.0]), fate_strategy(delays=[0.001, 0.05, 0.15, 1.0, 2.5, 10.0]), fate_strategy(delays=[0.001, 0.05, 1.0]), st.sampled_from([["senderr", 101], ["senderr", 13]])), max_size=14))
+    if draw(st.integers(0, 3)) == 0:
+        # the kernel refuses one of the first transmissions (typically a request's very first datagram)
+        fates.insert(min(len(fates), draw(st.integers(0, 3))), ["senderr", draw(st.sampled_from([101, 13, 1]))])
     case = {"requests": reqs, "forgeries": forgeries, "errors": errors, "fates": fates, "rng": draw(st.integers(0, 999)), "token0": draw(st.sampled_from([0, 0, 254, 65534, 2**64 - 2]))}
     if draw(st.integers(0, 2)) == 0:
         case["shutdown"] = draw(st.sampled_from([0.0005, 0.5, 1.0005, 3.0, 30.0]))
